@@ -3,6 +3,8 @@
  *   crowd=1   20-36 processes on one or two objects (crosses the 8 and 16 waiter thresholds)
  *   rec=1     recording steps (C14)
  *   churn=1   priority churn on one long waiting list (see gen_churn)
+ *   storm=1   everything in very few instants: short scripts that end and are restarted, waits for processes, zero or one-quarter durations
+ *   huge=1    unlimited buffers and amounts around 2^62, 2^63 and 2^64
  */
 #include "procs.h"
 #include <stdlib.h>
@@ -31,6 +33,7 @@ static int cfg_int(const char *cfg, const char *key, int def)
 static int64_t g_dt(vrng *r, int tmode)
 {
     static const int64_t grid[] = { 0, 0, 4, 4, 4, 8, 8, 12, 2, 1 };
+    if (tmode == 3) { static const int64_t few[] = { 0, 0, 0, 1, 1, 4 }; return few[vrng_below(r, 6)]; }     /* storm: nearly everything coincides */
     if (tmode == 1) return (int64_t)vrng_below(r, 24);
     if (tmode == 2 && vrng_chance(r, 1, 10)) return 1000 + (int64_t)vrng_below(r, 6);
     return grid[vrng_below(r, 10)];
@@ -143,8 +146,10 @@ void procs_gen(plan *p, uint64_t seed, const char *cfg)
     const int faults = cfg_int(cfg, "faults", 1);
     const bool crowd = cfg_int(cfg, "crowd", 0) != 0;
     const bool rec = cfg_int(cfg, "rec", 0) != 0 || (all && vrng_chance(&r, 1, 3));
+    const bool storm = cfg_int(cfg, "storm", 0) != 0;
+    const bool huge = cfg_int(cfg, "huge", 0) != 0;
 
-    const int tmode = (int)vrng_below(&r, 8) < 6 ? 0 : (int)vrng_below(&r, 3);
+    const int tmode = storm ? 3 : (int)vrng_below(&r, 8) < 6 ? 0 : (int)vrng_below(&r, 3);
     const int pmode = (int)vrng_below(&r, 3);
     int np = crowd ? 18 + (int)vrng_below(&r, 19) : 2 + (int)vrng_below(&r, 7);
     if (!crowd && vrng_chance(&r, 1, 12)) np = 9 + (int)vrng_below(&r, 6);
@@ -187,7 +192,7 @@ void procs_gen(plan *p, uint64_t seed, const char *cfg)
         plan_add(p, "P", 4, (int64_t)i, (int64_t)slot[i], prio[i], sd);
     }
     for (int k = 0; k < npool; k++) plan_add(p, "CAP", 3, (int64_t)1, (int64_t)k, (int64_t)(1 + vrng_below(&r, 6)));
-    for (int k = 0; k < nbuf; k++) plan_add(p, "CAP", 3, (int64_t)2, (int64_t)k, vrng_chance(&r, 1, 6) ? (int64_t)0 : (int64_t)(1 + vrng_below(&r, 8)));
+    for (int k = 0; k < nbuf; k++) plan_add(p, "CAP", 3, (int64_t)2, (int64_t)k, (huge || vrng_chance(&r, 1, 6)) ? (int64_t)0 : (int64_t)(1 + vrng_below(&r, 8)));
     for (int k = 0; k < noq; k++) plan_add(p, "CAP", 3, (int64_t)3, (int64_t)k, vrng_chance(&r, 1, 6) ? (int64_t)0 : (int64_t)(1 + vrng_below(&r, 3)));
     for (int k = 0; k < npq; k++) plan_add(p, "CAP", 3, (int64_t)4, (int64_t)k, vrng_chance(&r, 1, 6) ? (int64_t)0 : (int64_t)(1 + vrng_below(&r, 3)));
     /* guard indices follow world_build order: res, pool, buf f/r, oq f/r, pq f/r, cond */
@@ -210,8 +215,8 @@ void procs_gen(plan *p, uint64_t seed, const char *cfg)
     ADD("TADD", m_wait ? 8 : 5, K_TADD); ADD("TSET", 2, K_TSET); ADD("TCANCEL", 2, K_TCANCEL); ADD("TCLEAR", 1, K_TCLEAR);
     ADD("YIELD", m_wait ? 3 : 1, K_YIELD); ADD("RESUME", m_wait ? 3 : 1, K_RESUME);
     ADD("INTR", 4 * wf, K_INTR); ADD("STOP", 2 * wf, K_STOP); ADD("PRIO", 3 * wf + (pmode ? 2 : 0), K_PRIO);
-    ADD("START", 1 * wf, K_START); ADD("EXIT", 1, K_EXIT); ADD("STOPSELF", wf ? 1 : 0, K_STOPSELF);
-    ADD("WAITP", m_wait ? 7 : 2, K_WAITP);
+    ADD("START", storm ? 9 : 1 * wf, K_START); ADD("EXIT", storm ? 3 : 1, K_EXIT); ADD("STOPSELF", wf ? 1 : 0, K_STOPSELF);
+    ADD("WAITP", storm ? 16 : m_wait ? 7 : 2, K_WAITP);
     ADD("WAITT", m_wait ? 4 : 1, K_WAITT);
     if (nhev) { ADD("WAITE", 5, K_WAITE); ADD("SCHEV", 2, K_SCHEV); ADD("CANEV", wf, K_CANEV); }
     if (nres) { ADD("ACQ", 14, K_ACQ); ADD("REL", 10, K_REL); ADD("PRE", 4 * (wf ? wf : 1), K_PRE); ADD("BLOCKRES", 10, K_BLOCK_RES); }
@@ -226,11 +231,24 @@ void procs_gen(plan *p, uint64_t seed, const char *cfg)
     ADD("REPORT", rec ? 2 : 1, K_REPORT);
     int wsum = 0; for (int i = 0; i < nt; i++) wsum += tab[i].w;
 
+    /* storm template, in half of the storm runs: a process that ends, is restarted and awaited again within one instant, while an
+     * earlier waiter with a timer falling on that instant is still around.  The priorities (random) decide who runs first. */
+    int role_a = -1, role_w = -1, role_w2 = -1, role_x = -1; int64_t role_d = 1;
+    if (storm && np >= 4 && vrng_chance(&r, 1, 2)) {
+        int perm[MAXP]; for (int i = 0; i < np; i++) perm[i] = i;
+        for (int i = np - 1; i > 0; i--) { const int j = (int)vrng_below(&r, (uint64_t)i + 1); const int t = perm[i]; perm[i] = perm[j]; perm[j] = t; }
+        role_a = perm[0]; role_w = perm[1]; role_w2 = perm[2]; role_x = perm[3];
+        role_d = vrng_chance(&r, 1, 2) ? 1 : 4;
+    }
     int nsteps[MAXP];
     for (int i = 0; i < np; i++) {
-        int ns = crowd ? 2 + (int)vrng_below(&r, 5) : 2 + (int)vrng_below(&r, 11);
+        int ns = (crowd || storm) ? 2 + (int)vrng_below(&r, 5) : 2 + (int)vrng_below(&r, 11);
         int emitted = 0;
         const int64_t I = i;
+        if (i == role_a) { plan_add(p, "HOLD", 2, I, role_d); emitted++; if (vrng_chance(&r, 1, 2)) ns = emitted; }
+        if (i == role_w) { plan_add(p, vrng_chance(&r, 1, 4) ? "TSET" : "TADD", 2, I, role_d); plan_add(p, "WAITP", 2, I, (int64_t)role_a); plan_add(p, "HOLD", 2, I, (int64_t)4); emitted += 3; }
+        if (i == role_x) { plan_add(p, "HOLD", 2, I, role_d); plan_add(p, "START", 2, I, (int64_t)role_a); emitted += 2; }
+        if (i == role_w2) { plan_add(p, "HOLD", 2, I, role_d); if (vrng_chance(&r, 1, 2)) { plan_add(p, "HOLD", 2, I, (int64_t)0); emitted++; } plan_add(p, "WAITP", 2, I, (int64_t)role_a); emitted += 2; }
         if (rec && i == 0) {
             /* recording windows usually open early */
             const int kinds[5] = { nres, npool, nbuf, noq, npq };
@@ -284,8 +302,8 @@ void procs_gen(plan *p, uint64_t seed, const char *cfg)
                     plan_add(p, "PREL", 3, I, pp, (int64_t)(vrng_chance(&r, 1, 2) ? 5 : vrng_below(&r, 6)));
                     emitted += 2;
                     break; }
-                case K_BPUT: plan_add(p, "BPUT", 3, I, (int64_t)vrng_below(&r, (uint64_t)nbuf), vrng_chance(&r, 1, 14) ? (int64_t)(100 + vrng_below(&r, 4)) : (int64_t)(1 + vrng_below(&r, 5))); break;
-                case K_BGET: plan_add(p, "BGET", 3, I, (int64_t)vrng_below(&r, (uint64_t)nbuf), vrng_chance(&r, 1, 14) ? (int64_t)(100 + vrng_below(&r, 4)) : (int64_t)vrng_below(&r, 6)); break;
+                case K_BPUT: plan_add(p, "BPUT", 3, I, (int64_t)vrng_below(&r, (uint64_t)nbuf), huge && vrng_chance(&r, 2, 3) ? (int64_t)(101 + vrng_below(&r, 7)) : vrng_chance(&r, 1, 14) ? (int64_t)(100 + vrng_below(&r, 4)) : (int64_t)(1 + vrng_below(&r, 5))); break;
+                case K_BGET: plan_add(p, "BGET", 3, I, (int64_t)vrng_below(&r, (uint64_t)nbuf), huge && vrng_chance(&r, 2, 3) ? (int64_t)(101 + vrng_below(&r, 7)) : vrng_chance(&r, 1, 14) ? (int64_t)(100 + vrng_below(&r, 4)) : (int64_t)vrng_below(&r, 6)); break;
                 case K_QPUT: plan_add(p, "QPUT", 3, I, (int64_t)vrng_below(&r, (uint64_t)noq), vrng_chance(&r, 1, 10) ? (int64_t)(1 + vrng_below(&r, 2)) : (int64_t)0); break;
                 case K_QGET: plan_add(p, "QGET", 2, I, (int64_t)vrng_below(&r, (uint64_t)noq)); break;
                 case K_KPUT: plan_add(p, "KPUT", 4, I, (int64_t)vrng_below(&r, (uint64_t)npq), g_prio(&r, pmode ? pmode : 1), (int64_t)(vrng_chance(&r, 1, 8) ? 1 : 0)); break;
